@@ -38,6 +38,7 @@ def run(ctx: Ctx) -> None:
     from .c12 import rule_validate_shape
     rule_validate_shape(ctx)  # validate() is the guard every move is followed by
     solvers.rule_move_filters(ctx)
+    solvers.rule_filter_literals(ctx)
     solvers.rule_frontinsert(ctx)
     shapes.rule_conversion_ops(ctx)
     from .c12 import rule_edge_keys
@@ -50,6 +51,8 @@ def run(ctx: Ctx) -> None:
 
 
 KNOCKOUTS = [
+    Knockout("measurement-position-photon-filter-or", EVO, sub_once('            if type(circuit.dag.nodes[edge[1]]["op"]) is not ops.MeasurementCNOTandReset\n            and type(circuit.dag.nodes[edge[0]]["op"]) is not ops.Input\n', '            if type(circuit.dag.nodes[edge[1]]["op"]) is not ops.MeasurementCNOTandReset\n            or type(circuit.dag.nodes[edge[0]]["op"]) is not ops.Input\n'), "filter.literals", "_select_possible_measurement_position"),
+    Knockout("cnot-position-output-polarity", EVO, sub_nth('if type(circuit.dag.nodes[edge[1]]["op"]) is not ops.Output', 'if type(circuit.dag.nodes[edge[1]]["op"]) is ops.Output', 0), "filter.literals", "admitted"),
     Knockout("measure-reset-inside-emission-loop", EVO, sub_once("            op.add_labels(\"Fixed\")\n\n            circuit.add(op)\n\n        # initialize all emitter measurement and reset operations\n", "            op.add_labels(\"Fixed\")\n\n            circuit.add(op)\n            if i == n_photon - 1 or emission_assignment[i] not in emission_assignment[i + 1:]:\n                mr = ops.MeasurementCNOTandReset(control=emission_assignment[i], control_type=\"e\", target=measurement_assignment[emission_assignment[i]], target_type=\"p\")\n                mr.add_labels(\"Fixed\")\n                circuit.add(mr)\n\n        # initialize all emitter measurement and reset operations\n"), "order.emission-first", "initialization"),
     Knockout("emitter-counter-uncapped", "graphiq/solvers/evolutionary_solver.py", sub_once("                    if ind == n_used_emitter and n_used_emitter < n_emitter:", "                    if ind == n_used_emitter:"), "budget.emitter-cap", "without a cap"),
     Knockout("conversion-ops-emitter", "graphiq/backends/stabilizer/functions/local_cliff_equi_check.py", sub_once('            operations_list.append(ops_list[op_index](register=gate[1], reg_type="p"))', '            operations_list.append(ops_list[op_index](register=gate[1], reg_type="e"))'), "move.filters", "str_to_op"),
